@@ -27,6 +27,28 @@ if MODE == "sym":
 REPO_URWID = os.path.join(os.environ.get("SYMX_REPO", "/repo"), "urwid") + os.sep
 
 # ------------------------------------------------------------------------------------------------------------
+# warnings: a WidgetWarning is urwid's own way of saying "this configuration is not a supported use"; such paths
+# are outside every property's quantifier ("valid for a sizing mode the widget reports supporting") and are
+# assumed away (as a branch, so coverage stays certifiable).  All other warnings are ignored.
+
+import warnings as _warnings  # noqa: E402
+
+from urwid.widget.widget import WidgetWarning  # noqa: E402
+
+WARN_POLICY = {"widget": "assume"}  # harnesses may set "ignore"
+
+
+def _warn(message, category=None, *a, **k):
+    if _isinstance(category, type) and issubclass(category, WidgetWarning) and WARN_POLICY["widget"] == "assume":
+        if MODE == "sym":
+            raise core.AssumeFailed()
+        raise api.AssumeFailedConc()
+
+
+_warnings.warn = _warn
+
+
+# ------------------------------------------------------------------------------------------------------------
 # function coverage through sys.monitoring (cheap: each code object is disabled after its first event)
 
 _seen_funcs = set()
@@ -84,6 +106,7 @@ def restore_stubs():
 
 def reset_between_paths():
     restore_stubs()
+    WARN_POLICY["widget"] = "assume"
     try:
         _canvas.CanvasCache.clear()
     except Exception:  # noqa: BLE001
@@ -179,32 +202,118 @@ def refine_for_replay(ctx):
             for lo, hi, w in _W_CLASSES:
                 alts.append(z3.And(a >= lo, a <= hi, W(a) == w))
             extra.append(z3.Or(*alts))
+    alts = [extra]
     for hook in _refiners:
         e = hook(ctx)
         if e:
-            extra.extend(e)
-    return extra or None
+            alts = [a + list(x) for a in alts for x in e]
+    if alts == [[]]:
+        return None
+    return alts
 
 
 _refiners = []
 
 
 # ------------------------------------------------------------------------------------------------------------
-# abstract widgets (assume-guarantee children).  In concrete mode the same classes take their numbers from the
-# model tables, so a validation run exercises the same container code with the same child behaviour.
+# abstract widgets (assume-guarantee children).
+#   symbolic mode : rows()/pack() are uninterpreted functions / free symbols (the widget contract only);
+#   validation    : the same classes take their numbers from the model's tables;
+#   replay        : (real_env) each abstract child is *realised by a bundled widget* whose real rows()/pack() agree
+#                   with the model (Divider / empty Pile / Text for flow, SolidFill for box, BigText with a 1xH font
+#                   for fixed); a model that no such widget matches is reported as unrealised, never as a violation.
 
 
-def fresh_widgets():
-    """Return the abstract widget classes (defined lazily so the module imports without side effects)."""
-    return AFlow, ABox, AFixed
+class Unrealised(Exception):
+    pass
 
 
-class _Rec:
-    def __init__(self):
-        self.calls = []
+def _realise_flow(table, selectable):
+    entries = [(tuple(k), v) for k, v in table.get("entries", [])]
+    vals = {v for _, v in entries}
+    if not entries:
+        vals = {table.get("else", 1)}
+    if len(vals) == 1:
+        k = vals.pop()
+        if selectable:
+            if k == 0:
+                raise Unrealised("selectable flow widget with 0 rows")
+            return urwid.Pile([urwid.SelectableIcon("x")] + [urwid.Divider()] * (k - 1)), "Pile([SelectableIcon('x')] + [Divider()]*%d)" % (k - 1)
+        if k == 0:
+            return urwid.Pile([]), "Pile([])"
+        return urwid.Divider(top=k - 1), "Divider(top=%d)" % (k - 1)
+    # Text('x'*n, wrap='any'): rows(c) = ceil(n / c)
+    lo, hi = 1, 10**9
+    for (c, _f), r in entries:
+        if r < 1 or c < 1:
+            raise Unrealised("non-constant rows with a zero entry")
+        lo = builtins.max(lo, (r - 1) * c + 1)
+        hi = builtins.min(hi, r * c)
+    if lo > hi or lo > 200000:
+        raise Unrealised("no Text('x'*n, wrap='any') matches the rows table %r" % (entries,))
+    if selectable:
+        return urwid.SelectableIcon("x" * lo, 0), "SelectableIcon('x'*%d)" % lo  # SelectableIcon is a Text: wrap default 'space' == 'any' without spaces
+    return urwid.Text("x" * lo, wrap="any"), "Text('x'*%d, wrap='any')" % lo
 
 
-class AFlow(urwid.Widget):
+def _record(w, seen):
+    """Record the sizes a (real) child is asked for, by wrapping the bound methods on the instance."""
+    for meth in ("rows", "render", "pack", "keypress", "mouse_event", "move_cursor_to_coords", "get_cursor_coords"):
+        orig = getattr(w, meth, None)
+        if orig is None:
+            continue
+
+        def wrap(*a, _o=orig, _m=meth, **k):
+            size = a[0] if a else k.get("size", ())
+            seen.append((_m, size, a[1] if len(a) > 1 else k.get("focus", False)))
+            return _o(*a, **k)
+
+        try:
+            setattr(w, meth, wrap)
+        except AttributeError:
+            pass
+    w.seen = seen
+    return w
+
+
+def AFlow(I, name, selectable=False):
+    if not I.symbolic and I.real_env:
+        I.func("R_" + name, 2, bool_args=(1,))
+        w, desc = _realise_flow(I.funcs.get("R_" + name, {}), selectable)
+        I.note("child_" + name, desc)
+        w._r = lambda c, focus, _w=w: _w.rows((c,), focus)
+        return _record(w, [])
+    return _AFlow(I, name, selectable)
+
+
+def ABox(I, name, selectable=False):
+    if not I.symbolic and I.real_env:
+        w = urwid.Filler(urwid.SelectableIcon("x")) if selectable else urwid.SolidFill("b")
+        I.note("child_" + name, "Filler(SelectableIcon('x'))" if selectable else "SolidFill('b')")
+        return _record(w, [])
+    return _ABox(I, name, selectable)
+
+
+def AFixed(I, name, selectable=False):
+    if not I.symbolic and I.real_env:
+        pw, ph = I.int("PW_" + name, 1), I.int("PH_" + name, 1)
+        if selectable:
+            raise Unrealised("selectable fixed-only widget")
+        if ph > 60 or pw > 500:
+            raise Unrealised("fixed widget of %dx%d" % (pw, ph))
+
+        class _F(urwid.Font):
+            height = ph
+            data = ("\nx\n" + "#\n" * ph,)
+
+        w = urwid.BigText("x" * pw, _F())
+        I.note("child_" + name, "BigText('x'*%d, 1x%d font)" % (pw, ph))
+        w.pw, w.ph = pw, ph
+        return _record(w, [])
+    return _AFixed(I, name, selectable)
+
+
+class _AFlow(urwid.Widget):
     """Flow widget with rows((c,), focus) = R_name(c, focus) >= 0, an uninterpreted function."""
 
     _sizing = frozenset([urwid.FLOW])
@@ -223,7 +332,9 @@ class AFlow(urwid.Widget):
     def _r(self, c, focus):
         r = self.R(c, focus)
         if self.I.symbolic:
-            self.I.axiom(r >= 0)
+            # contract: rows >= 0; a widget that can take the focus has at least one row (true of every bundled
+            # selectable flow widget: Edit, Button, CheckBox, RadioButton, SelectableIcon, ...)
+            self.I.axiom(r >= (1 if self._selectable else 0))
         return r
 
     def rows(self, size, focus=False):
@@ -241,7 +352,7 @@ class AFlow(urwid.Widget):
         return key
 
 
-class ABox(urwid.Widget):
+class _ABox(urwid.Widget):
     _sizing = frozenset([urwid.BOX])
 
     def __init__(self, I, name, selectable=False):
@@ -264,7 +375,7 @@ class ABox(urwid.Widget):
         return key
 
 
-class AFixed(urwid.Widget):
+class _AFixed(urwid.Widget):
     """Fixed widget with pack(()) = (PW, PH), free symbols >= 1."""
 
     _sizing = frozenset([urwid.FIXED])
@@ -292,3 +403,32 @@ class AFixed(urwid.Widget):
     def keypress(self, size, key):
         self.seen.append(("keypress", size, key))
         return key
+
+
+def _refine_rows(ctx):
+    """Alternatives that make every abstract flow child realisable: all R_x constant; or R_x(c) = ceil(n_x / c)."""
+    names = [n for n in ctx.apps if n.startswith("R_")]
+    if not names:
+        return None
+    const, ceil = [], []
+    for n in names:
+        decl, seen = ctx.apps[n]
+        k = z3.Int("K_" + n)
+        nn = z3.Int("N_" + n)
+        const += [decl(*a) == k for a in seen]
+        ceil.append(nn >= 1)
+        for a in seen:
+            r = decl(*a)
+            ceil += [r >= 1, (r - 1) * a[0] + 1 <= nn, nn <= r * a[0]]
+    mixed = []
+    for n in names:
+        decl, seen = ctx.apps[n]
+        k = z3.Int("K_" + n)
+        nn = z3.Int("N_" + n)
+        cst = z3.And(*[decl(*a) == k for a in seen]) if seen else z3.BoolVal(True)
+        cl = z3.And(nn >= 1, nn <= 100000, *[z3.And(decl(*a) >= 1, (decl(*a) - 1) * a[0] + 1 <= nn, nn <= decl(*a) * a[0]) for a in seen])
+        mixed.append(z3.Or(cst, cl))
+    return [const, mixed]
+
+
+_refiners.append(_refine_rows)
